@@ -79,8 +79,9 @@ def g_reads():
                     ch = _attr_chain(node)
                     if ch[:2] in FORBIDDEN_CALLS or ch[-2:] in FORBIDDEN_CALLS:
                         bad.append('uses %s' % '.'.join(ch))
-                    if ch[-1:] == ('get_default_dtype',) and not _default_dtype_only_types_new_tensors(fn, node):
-                        bad.append('reads the global default dtype for something else than the dtype of a tensor built from python / numpy data')
+                    # reads of the global default dtype: NOT a syntactic rule any more (helpers, kwargs dicts ... made it brittle);
+                    # the dtype ghost carried by every group of this plan tags what is created in the default dtype and reports
+                    # where such a value meets data (DTYPE obligations), which is the semantic content of the rule
                     if node.attr == 'requires_grad' and isinstance(node.ctx, ast.Load) and qual not in ALLOW_REQUIRES_GRAD \
                             and key != 'scatternet.lowlevel':
                         # scatternet.lowlevel: the flag decides what is SAVED for backward; that the returned values do not depend on it
